@@ -12,7 +12,7 @@
            agree / holds_b run by run                                                        *)
 From Coq Require Import List Arith Bool Lia.
 From GolemV Require Import Base.Closure Graph.QueriesSpec Graph.Queries Graph.QueriesBasics
-  Graph.QueriesCycle Graph.QueriesLocal Graph.QueriesOracle Graph.Rules.
+  Graph.QueriesCycle Graph.QueriesLocal Graph.QueriesOracle Graph.RulesBfs Graph.Rules Graph.RulesBfsProofs.
 Import ListNotations.
 
 (* ======================================================================================== *)
@@ -380,30 +380,8 @@ Proof.
 Qed.
 
 (* ---- has_no_isolated_components ---- *)
-Lemma uedge_sym : forall g x y, uedge g x y -> uedge g y x.
-Proof. intros g x y [H|H]; [right|left]; exact H. Qed.
-
-Lemma ureach_trans : forall g x y z, ureach g x y -> ureach g y z -> ureach g x z.
-Proof.
-  intros g x y z H. induction H as [x|x a y E R IH]; intros H2; [exact H2|].
-  eapply ureach_step; [exact E|apply IH; exact H2].
-Qed.
-
-Lemma ureach_sym : forall g x y, ureach g x y -> ureach g y x.
-Proof.
-  intros g x y H. induction H as [x|x a y E R IH]; [apply ureach_refl|].
-  eapply ureach_trans; [exact IH|]. eapply ureach_step; [apply uedge_sym; exact E|apply ureach_refl].
-Qed.
-
 Lemma uadj_b_iff : forall g x y, uadj_b g x y = true <-> uedge g x y.
 Proof. intros g x y. unfold uadj_b, uedge. rewrite orb_true_iff, !adj_b_iff. reflexivity. Qed.
-
-Lemma uedge_lt : forall g, wf g -> forall x y, uedge g x y -> x < length g /\ y < length g.
-Proof.
-  intros g Hwf x y [E|E].
-  - split; [eapply edge_src_lt; exact E|eapply Hwf; exact E].
-  - split; [eapply Hwf; exact E|eapply edge_src_lt; exact E].
-Qed.
 
 Lemma mrel_uadjm : forall g, wf g -> forall x y, mrel (length g) (uadjm g) x y <-> uedge g x y.
 Proof.
@@ -446,19 +424,6 @@ Qed.
 Lemma ureach_inv : forall g x y, ureach g x y -> x = y \/ exists z, uedge g x z /\ ureach g z y.
 Proof. intros g x y H. destruct H as [x|x a y E R]; [left; reflexivity|right; exists a; auto]. Qed.
 
-Lemma connected_from_first_iff : forall g, wf g -> 0 < length g ->
-  (connected_from_first g = true <-> forall v, v < length g -> ureach g 0 v).
-Proof.
-  intros g Hwf Hn. unfold connected_from_first. rewrite forallb_forall. split.
-  - intros H v Hv. assert (Hin : In v (seq 0 (length g))) by (apply in_seq; lia).
-    specialize (H v Hin). apply orb_true_iff in H. destruct H as [H|H].
-    + apply Nat.eqb_eq in H. subst v. apply ureach_refl.
-    + apply (utc_iff g Hwf) in H. destruct H as [z [E R]]. eapply ureach_step; eassumption.
-  - intros H v Hin. apply in_seq in Hin. apply orb_true_iff.
-    destruct (ureach_inv g 0 v (H v ltac:(lia))) as [<-|P]; [left; reflexivity|].
-    right. apply (utc_iff g Hwf). exact P.
-Qed.
-
 Theorem no_isolated_components_iff : forall g, wf g ->
   (r_no_isolated_components g = RTrue <->
      length g > 0 /\ forall u v, u < length g -> v < length g -> ureach g u v) /\
@@ -466,20 +431,19 @@ Theorem no_isolated_components_iff : forall g, wf g ->
      ~ (length g > 0 /\ forall u v, u < length g -> v < length g -> ureach g u v)).
 Proof.
   intros g Hwf.
-  assert (K : r_no_isolated_components g = RTrue <->
-              length g > 0 /\ forall u v, u < length g -> v < length g -> ureach g u v).
+  assert (K : (r_no_isolated_components g = RTrue <->
+               length g > 0 /\ forall u v, u < length g -> v < length g -> ureach g u v) /\
+              (r_no_isolated_components g = RTrue \/ r_no_isolated_components g = RValueError)).
   { unfold r_no_isolated_components. destruct (Nat.eqb (length g) 0) eqn:L.
-    - apply Nat.eqb_eq in L. split; [discriminate|]. intros [H _]. lia.
+    - apply Nat.eqb_eq in L. split; [|auto]. split; [discriminate|]. intros [H _]. lia.
     - apply Nat.eqb_neq in L. assert (Hn : 0 < length g) by lia.
-      pose proof (connected_from_first_iff g Hwf Hn) as C.
-      destruct (connected_from_first g).
-      + split; [intros _|reflexivity]. split; [lia|]. intros u v Hu Hv.
+      destruct (nx_is_connected_iff g Hwf Hn) as [b [Eb C]]. rewrite Eb. destruct b.
+      + split; [|auto]. split; [intros _|reflexivity]. split; [lia|]. intros u v Hu Hv.
         eapply ureach_trans; [apply ureach_sym; apply C; [reflexivity|exact Hu]|apply C; [reflexivity|exact Hv]].
-      + split; [discriminate|]. intros [_ H]. assert (false = true); [|discriminate].
+      + split; [|auto]. split; [discriminate|]. intros [_ H]. assert (false = true); [|discriminate].
         apply C. intros v Hv. apply H; [exact Hn|exact Hv]. }
-  split; [exact K|]. rewrite <- K. unfold r_no_isolated_components.
-  destruct (Nat.eqb (length g) 0); [split; [discriminate|reflexivity]|].
-  destruct (connected_from_first g); split; intros H; try discriminate; try reflexivity; try congruence.
+  destruct K as [K X]. split; [exact K|]. rewrite <- K.
+  destruct X as [E|E]; rewrite E; split; intros H; try discriminate; try reflexivity; try congruence.
 Qed.
 
 (* ---- all six at once ---- *)
@@ -505,7 +469,9 @@ Proof.
     + split; [|auto]. split; [intros _; apply H1; reflexivity|reflexivity].
   - destruct (no_isolated_components_iff g Hwf) as [H1 H2].
     assert (X : r_no_isolated_components g = RTrue \/ r_no_isolated_components g = RValueError).
-    { unfold r_no_isolated_components. destruct (Nat.eqb (length g) 0); [auto|]. destruct (connected_from_first g); auto. }
+    { assert (N : r_no_isolated_components g <> RTrue -> r_no_isolated_components g = RValueError).
+      { intros NT. apply H2. intros P. apply NT. apply H1. exact P. }
+      destruct (r_no_isolated_components g); auto; right; apply N; discriminate. }
     destruct X as [E|E]; rewrite E in *; simpl.
     + split; [|auto]. split; [intros _; apply H1; reflexivity|reflexivity].
     + split; [|auto]. split; [discriminate|]. intros H. exfalso. apply H2; [reflexivity|exact H].
@@ -760,16 +726,6 @@ Proof.
   intros g Hwf p c. unfold edge_pairs. rewrite filter_In, in_prod_iff, !in_nodes. cbn [fst snd].
   rewrite memb_iff. unfold edge. split; [tauto|]. intros E. split; [|exact E].
   split; [eapply Hwf; exact E|eapply edge_src_lt; exact E].
-Qed.
-
-Lemma NoDup_app_intro : forall {A} (a b : list A),
-  NoDup a -> NoDup b -> (forall x, In x a -> In x b -> False) -> NoDup (a ++ b).
-Proof.
-  intros A a b Ha Hb Hd. induction Ha as [|x a Hx Ha IH]; [exact Hb|].
-  simpl. constructor.
-  - intros Hin. apply in_app_or in Hin. destruct Hin as [Hin|Hin]; [exact (Hx Hin)|].
-    apply (Hd x); [left; reflexivity|exact Hin].
-  - apply IH. intros y Hy1 Hy2. apply (Hd y); [right; exact Hy1|exact Hy2].
 Qed.
 
 Lemma edge_pairs_NoDup : forall g, NoDup (edge_pairs g).
